@@ -358,3 +358,63 @@ Proof.
       * intros E. apply N.eqb_eq. destruct (N.eq_dec r 0) as [|Hr0]; [assumption|].
         exfalso. rewrite HBj, Hnum, (Hk1 Hr0) in E. nia.
 Qed.
+
+(* ------------------------------------------------------------------ *)
+(* totality of the n-decimal-places rendering: no panic, no fuel exhaustion *)
+
+Lemma nonrec_dp_total : forall fuel n base den sep neg ip ip_text cur i tz asign td,
+  2 <= base_val base <= 36 -> den <> 0 -> cur < den -> i <= n ->
+  (N.to_nat (n - i) < fuel)%nat ->
+  exists r, nonrec_loop fuel (DecimalPlaces n) base den sep neg ip ip_text false cur i tz asign td = Ok r.
+Proof.
+  induction fuel as [|fuel IH]; intros n base den sep neg ip ip_text cur i tz asign td Hb Hd Hc Hi Hf; [lia|].
+  cbn [nonrec_loop]. unfold next_digit.
+  destruct (cur =? 0) eqn:Ec.
+  - destruct asign; [|unfold print_integer_part]; eexists; reflexivity.
+  - cbn [md_is_dp]. destruct (n =? i) eqn:En.
+    + destruct asign; [|unfold print_integer_part]; eexists; reflexivity.
+    + replace (den =? 0) with false by lia.
+      assert (Hmod : cur * base_val base - cur * base_val base / den * den = (cur * base_val base) mod den)
+        by (rewrite N.mod_eq by assumption; lia).
+      rewrite Hmod.
+      assert (Hlt : (cur * base_val base) mod den < den) by (apply N.mod_lt; assumption).
+      destruct (cur * base_val base / den =? 0) eqn:Ez.
+      * rewrite andb_false_r. apply IH; try assumption; lia.
+      * rewrite digit_text_single by (try assumption; apply digit_lt; lia).
+        cbn [bind].
+        destruct (match asign with
+                  | Some s => (s, td)
+                  | None => let '(s, t) := print_integer_part neg ip ip_text false in (s, td ++ t ++ [decimal_char sep])
+                  end) as [a1 t1].
+        apply IH; try assumption; lia.
+Qed.
+
+Theorem dp_total_lemma : forall fuel n base sep x,
+  base_prefix_ok base = true -> wfr x = true ->
+  exists s ex, bigrat_format fuel (SDp n) base sep x = Ok (s, ex).
+Proof.
+  intros fuel n base sep x Hbase Hw.
+  assert (Hd : rden x <> 0) by (unfold wfr in Hw; lia).
+  pose proof (base_prefix_ok_range base Hbase) as Hb.
+  unfold bigrat_format.
+  destruct (simplify_spec x Hd) as (y & Hs & _ & Hyd & Hg & _ & _). rewrite Hs. cbn [bind].
+  assert (Hyg : N.gcd (rnum y) (rden y) = 1).
+  { destruct (rden x =? 1); [|assumption]. rewrite Hg. apply N.gcd_1_r. }
+  destruct (rden y =? 1) eqn:E1.
+  - unfold format_as_integer.
+    destruct (format_biguint_nosf base true (rnum y) Hb) as (f & ds & Hf & _). rewrite Hf. cbn [bind]. eauto.
+  - destruct (terminates_spec_lemma (base_val base) y) as (t & Ht & _); try lia.
+    { unfold wfr. lia. } { unfold reduced. lia. }
+    rewrite Ht. cbn [bind].
+    unfold format_as_decimal. replace (rden y =? 0) with false by lia.
+    destruct (format_biguint_nosf base true (rnum y / rden y) Hb) as (fi & ipd & Hfi & _). rewrite Hfi. cbn [bind fst snd].
+    unfold format_trailing_digits. cbn [bind].
+    assert (Hmod : rnum y - rnum y / rden y * rden y = rnum y mod rden y)
+      by (rewrite N.mod_eq by assumption; lia).
+    rewrite Hmod.
+    destruct (nonrec_dp_total (N.to_nat n + 2 * N.to_nat (N.size (rden y)) + 4) n base (rden y) sep
+                (rneg y && negb (rnum y =? 0)) (rnum y / rden y) (fbu_text fi)
+                (rnum y mod rden y) 0 0 None []) as ([[sg tx] ex] & Hr); try assumption; try lia.
+    { apply N.mod_lt. assumption. }
+    rewrite Hr. cbn [bind]. eauto.
+Qed.
